@@ -50,7 +50,7 @@ def c10_unit(c):
 
 
 PROPS = {
-    "C01": dict(trace_gen="C02", oracle="C01", relevant=rel({s: set() for s in list(range(0, 9)) + [15, 16]}),
+    "C01": dict(units=["p1greedy", "p1dfs"], n_units=dict(quick=1500, thorough=20000), trace_gen="C02", oracle="C01", relevant=rel({s: set() for s in list(range(0, 9)) + [15, 16]}),
                 trace_env={"VH_DEEP": "1"}, n_trace=dict(quick=96, thorough=800), n_search=dict(quick=1500, thorough=40000)),
     "C02": dict(trace_gen="C02", oracle="C02",
                 relevant=rel({0: STRUCT | SIZE | {50}, 1: COMP, 2: STRUCT, 3: STRUCT, 5: STRUCT, 7: STRUCT | ROUTE, 8: STRUCT | ROUTE | SIZE, 9: {1, 2}}),
@@ -80,9 +80,9 @@ PROPS = {
                 trace_env={"VH_DEEP": "1"}, n_trace=dict(quick=96, thorough=800), n_search=dict(quick=1500, thorough=30000)),
     "C13": dict(trace_gen="C13", oracle="C13", relevant=rel({4: LAYER, 5: POS | STRUCT, 13: {0, 1}, 15: ALLF | {0}, 16: {4}}),
                 trace_env={"VH_DEEP": "1"}, n_trace=dict(quick=96, thorough=800), n_search=dict(quick=2000, thorough=40000)),
-    "C14": dict(trace_gen="C14", oracle="C14", relevant=rel({2: STRUCT, 3: STRUCT, 8: STRUCT}),
+    "C14": dict(units=["p1greedy", "p1dfs"], n_units=dict(quick=1500, thorough=20000), trace_gen="C14", oracle="C14", relevant=rel({2: STRUCT, 3: STRUCT, 8: STRUCT}),
                 n_trace=dict(quick=200, thorough=2000), n_search=dict(quick=3000, thorough=60000)),
-    "C15": dict(level="proof", oracle="C15", n_search=dict(quick=150, thorough=3000), race=True),
+    "C15": dict(level="proof", oracle="C15", n_search=dict(quick=150, thorough=3000), race=True, n_race=dict(quick=40, thorough=600)),
     "C16": dict(trace_gen="C16", oracle="C16", relevant=rel({5: POS | STRUCT, 6: XY | SIZE, 9: {1}}),
                 n_trace=dict(quick=200, thorough=2000), n_search=dict(quick=3000, thorough=60000)),
     "C17": dict(trace_gen="C17", oracle="C17", relevant=rel({6: XY | SIZE, 7: ROUTE}),
